@@ -551,11 +551,20 @@ func (R *Repository) getStoredCertAsChain(oldStore crlstore.CRLStore) (*core.Cer
 
 	cert, err := oldStore.GetCRLSignatureCert()
 	if err != nil {
-		return chains, nil
+		return R.addTrustedSignatureCerts(chains), nil
 	}
 
 	chains = core.NewCertificateChainsFromEntry(cert)
-	return chains, nil
+	return R.addTrustedSignatureCerts(chains), nil
+}
+
+// addTrustedSignatureCerts the configured trusted signature certs stay entitled to sign the crl when it is updated,
+// otherwise a crl which gets signed by another one of them (re-keyed CA) could not be updated until the next restart
+func (R *Repository) addTrustedSignatureCerts(chains *core.CertificateChains) *core.CertificateChains {
+	for _, chain := range core.NewCertificateChains(nil, R.crlConfig.TrustedSignatureCerts).CertificateChainList {
+		chains.AddCertificateChain(chain)
+	}
+	return chains
 }
 
 func verifyCRLSignature(result *crlreader.CRLReadResult, chains *core.CertificateChains) (*core.CertificateChainEntry, error) {
